@@ -147,6 +147,10 @@ def contradiction(rng, path, doc):
         ("kw-enum-case-dup", {"enum": ["a", "A"]}),
         ("kw-enum-mixed", {"enum": ["a", 1, None, True, 1.5, [], {}]}),
         ("kw-enum-null-only", {"enum": [None]}),
+        ("kw-enum-float", {"enum": [0.5, 1.5]}),
+        ("kw-enum-bool", {"enum": [True, False]}),
+        ("kw-enum-typed-float", {"type": "number", "enum": [0.5, 1.5]}),
+        ("kw-enum-of-lists", {"enum": [[1], [2]]}),
         ("kw-enum-default-missing", {"type": "string", "enum": ["a", "b"], "default": "zzz"}),
         ("kw-const-enum", {"const": 1, "enum": [2]}),
         ("kw-const-default", {"const": "a", "default": "b"}),
@@ -473,3 +477,84 @@ def collide_mutation(doc, rng):
     else:
         d["components"]["schemas"] = {**new, **schemas}
     return f"collide:{kind_comp}-vs-inline-{kind_inline}", d
+
+
+# ------------------------------------------------------------------ failing schemas whose error value has NO detail text
+DETAILLESS = {   # label -> schema that fails with a header-only error (detail=None): `Unsupported enum type <class ...>`
+    "float-enum": {"enum": [0.5, 1.5]},
+    "bool-enum": {"enum": [True, False]},
+    "typed-float-enum": {"type": "number", "enum": [0.5, 1.5]},
+    "list-enum": {"enum": [[1], [2]]},
+    "dict-enum": {"enum": [{"a": 1}]},
+}
+OTHER_FAILING = {  # failing schemas WITH a detail text, for the mixed combinations
+    "dangling-ref": {"$ref": "#/components/schemas/DoesNotExist"},
+    "mixed-enum": {"enum": ["a", 1]},
+}
+
+
+def detailless_docs():
+    """Documents that plant a schema failing with a detail-less error at every position whose error is later formatted into
+    another diagnostic (request body: sole / every media type / inline property / array items / next to an unsupported media
+    type; response; operation and path-item parameter; component parameter; component property; allOf member; union member;
+    additionalProperties; array items of a component).  Every one must end in diagnostics.  list of (label, document)."""
+    out = []
+    o = lambda **p: {"type": "object", "properties": p}
+    ok = {"200": {"description": "ok"}}
+
+    def doc(paths=None, schemas=None, params=None, bodies=None, responses=None):
+        comps = {}
+        for k, v in (("schemas", schemas), ("parameters", params), ("requestBodies", bodies), ("responses", responses)):
+            if v:
+                comps[k] = v
+        d = {"openapi": "3.1.0", "info": {"title": "t", "version": "1"}, "paths": paths or {}}
+        if comps:
+            d["components"] = comps
+        return d
+    bad_all = {**DETAILLESS, **OTHER_FAILING}
+    for lab, bad in bad_all.items():
+        content = lambda sch, mt="application/json": {mt: {"schema": sch}}
+        post = lambda rb, extra=None: {"/ratio": {"post": {"operationId": "postRatio", "requestBody": rb, "responses": ok, **(extra or {})}}}
+        # --- request bodies
+        out.append((f"detailless:{lab}:body-sole-json", doc(post({"content": content(bad)}))))
+        out.append((f"detailless:{lab}:body-sole-form", doc(post({"content": content(bad, "application/x-www-form-urlencoded")}))))
+        out.append((f"detailless:{lab}:body-sole-multipart", doc(post({"content": content(bad, "multipart/form-data")}))))
+        out.append((f"detailless:{lab}:body-inline-property", doc(post({"content": content(o(ratio=bad, name={"type": "string"}))}))))
+        out.append((f"detailless:{lab}:body-array-items", doc(post({"content": content({"type": "array", "items": bad})}))))
+        out.append((f"detailless:{lab}:body-json+xml", doc(post({"content": {**content(bad), "application/xml": {"schema": {"type": "string"}}}}))))
+        out.append((f"detailless:{lab}:body-all-bad", doc(post({"content": {**content(bad), **content(DETAILLESS["bool-enum"], "application/x-www-form-urlencoded"),
+                                                                           **content({"type": "array", "items": bad}, "multipart/form-data")}}))))
+        out.append((f"detailless:{lab}:body-one-good", doc(post({"content": {**content(bad), **content(o(a={"type": "string"}), "multipart/form-data")}}))))
+        out.append((f"detailless:{lab}:body-component-ref", doc(post({"$ref": "#/components/requestBodies/B"}), bodies={"B": {"content": content(bad)}})))
+        out.append((f"detailless:{lab}:body-schema-ref", doc(post({"content": content({"$ref": "#/components/schemas/Bad"})}), schemas={"Bad": bad})))
+        # --- responses
+        resp = lambda r: {"/ratio": {"get": {"operationId": "getRatio", "responses": r}}}
+        out.append((f"detailless:{lab}:response", doc(resp({"200": {"description": "ok", "content": content(bad)}}))))
+        out.append((f"detailless:{lab}:response-only-of-two", doc(resp({"200": {"description": "ok", "content": content(bad)}, "404": {"description": "nf", "content": content(o(m={"type": "string"}))}}))))
+        out.append((f"detailless:{lab}:response-items", doc(resp({"200": {"description": "ok", "content": content({"type": "array", "items": bad})}}))))
+        out.append((f"detailless:{lab}:response-component", doc(resp({"200": {"$ref": "#/components/responses/R"}}), responses={"R": {"description": "r", "content": content(bad)}})))
+        # --- parameters
+        for loc in ("query", "header", "cookie", "path"):
+            path = "/ratio/{p}" if loc == "path" else "/ratio"
+            par = {"name": "p", "in": loc, "required": loc == "path", "schema": bad}
+            out.append((f"detailless:{lab}:param-{loc}", doc({path: {"get": {"operationId": "getRatio", "parameters": [par], "responses": ok}}})))
+            out.append((f"detailless:{lab}:pathitem-param-{loc}", doc({path: {"parameters": [par], "get": {"operationId": "getRatio", "responses": ok}}})))
+        out.append((f"detailless:{lab}:param-component", doc({"/ratio": {"get": {"parameters": [{"$ref": "#/components/parameters/P"}], "responses": ok}}},
+                                                                params={"P": {"name": "p", "in": "query", "schema": bad}})))
+        out.append((f"detailless:{lab}:param-array-items", doc({"/ratio": {"get": {"parameters": [{"name": "p", "in": "query", "schema": {"type": "array", "items": bad}}], "responses": ok}}})))
+        out.append((f"detailless:{lab}:param-content", doc({"/ratio": {"get": {"parameters": [{"name": "p", "in": "query", "content": content(bad)}], "responses": ok}}})))
+        # --- component schemas
+        user = {"/u": {"get": {"operationId": "getU", "responses": {"200": {"description": "ok", "content": content({"$ref": "#/components/schemas/Holder"})}}}}}
+        out.append((f"detailless:{lab}:component", doc(user, schemas={"Holder": bad})))
+        out.append((f"detailless:{lab}:component-property", doc(user, schemas={"Holder": o(ratio=bad, fine={"type": "string"}), "Uses": o(h={"$ref": "#/components/schemas/Holder"})})))
+        out.append((f"detailless:{lab}:component-deep-property", doc(user, schemas={"Holder": o(inner=o(deeper=o(ratio=bad)))})))
+        out.append((f"detailless:{lab}:allof-member", doc(user, schemas={"Base": o(id={"type": "integer"}), "Holder": {"allOf": [{"$ref": "#/components/schemas/Base"}, bad]}})))
+        out.append((f"detailless:{lab}:allof-member-property", doc(user, schemas={"Base": o(id={"type": "integer"}), "Holder": {"allOf": [{"$ref": "#/components/schemas/Base"}, o(ratio=bad)]}})))
+        out.append((f"detailless:{lab}:allof-parent", doc(user, schemas={"Base": o(ratio=bad), "Holder": {"allOf": [{"$ref": "#/components/schemas/Base"}, o(x={"type": "string"})]}})))
+        out.append((f"detailless:{lab}:union-member", doc(user, schemas={"Holder": o(u={"anyOf": [bad, {"type": "string"}]})})))
+        out.append((f"detailless:{lab}:component-union", doc(user, schemas={"Holder": {"oneOf": [{"type": "integer"}, bad]}})))
+        out.append((f"detailless:{lab}:additional-properties", doc(user, schemas={"Holder": {"type": "object", "additionalProperties": bad}})))
+        out.append((f"detailless:{lab}:component-array-items", doc(user, schemas={"Holder": {"type": "array", "items": bad}})))
+        out.append((f"detailless:{lab}:component-list-property", doc(user, schemas={"Holder": o(ratios={"type": "array", "items": bad})})))
+        out.append((f"detailless:{lab}:ref-chain", doc(user, schemas={"Bad": bad, "Mid": {"type": "array", "items": {"$ref": "#/components/schemas/Bad"}}, "Holder": o(m={"$ref": "#/components/schemas/Mid"})})))
+    return out
